@@ -1,15 +1,17 @@
 (* Property C12 -- theorems only.  Each is closed by `exact <lemma>` and followed by Print Assumptions.
-   The definitions they talk about (Gen_*.v) are regenerated from /repo's headers on every run. *)
+   The definitions they talk about (Gen_*.v) are regenerated from /repo's headers on every run.
+   Vocabulary (Known.v): qof L = (L+6)/8 is the "budget class" of a table of 2^L buckets;
+   known q h = bits [0,8q] and [57,63] of h = what a bucket keeps next to an element of class q. *)
 From Coq Require Import ZArith List.
 From MomoCommon Require Import GenPrelude.
-From C12 Require Gen_Base Gen_O2 Gen_P4 Gen_One Known P4_Slot.
+From C12 Require Gen_Base Gen_O2 Gen_P4 Gen_One Known P4_Model P4_Slot P4_Bucket O2_Slot Chain.
 Import ListNotations.
 Local Open Scope Z_scope.
 
 (* LimP4, reconstruct_exact: for EVERY 64-bit hash h, every table size 2^L (L <= 57), every displacement `probe`,
    every slot idx and every hashCount <= 8: if the slot holds what AddCrt stored for (h, L, probe) and the element sits
    `probe` steps after its start bucket, then BucketLimP4::GetHashCodePart returns either the full getter's value
-   (exactly when the byte is the empty marker or the budget class (L+6)/8 changes) or exactly the known bits of h. *)
+   or exactly the known bits of h. *)
 Theorem C12_limp4_reconstruct_exact :
   forall H s full bidx L newL items idx h probe,
     0 <= idx -> idx < H <= 8 -> 0 <= h < 2 ^ 64 -> 0 <= L <= 57 -> 0 <= newL <= 63 -> 0 <= probe ->
@@ -19,3 +21,174 @@ Theorem C12_limp4_reconstruct_exact :
       if P4_Slot.p4_full_used (P4_Slot.p4_byte h L probe) L newL then full else Known.known (Known.qof L) h.
 Proof. exact P4_Slot.p4_reconstruct. Qed.
 Print Assumptions C12_limp4_reconstruct_exact.
+
+(* p4_byte is exactly what the generated pvSetHashProbe writes (so the hypothesis above is what AddCrt establishes) *)
+Theorem C12_limp4_setHashProbe_stores_byte :
+  forall H s idx x L probe, 0 <= idx -> idx < H <= 8 -> 0 <= x -> 0 <= L <= 63 -> 0 <= probe < 2 ^ 64 ->
+    Gen_P4.pvSetHashProbe H s idx x L probe =
+      if H - 1 - idx <=? idx then s else upd s (H - 1 - idx) (P4_Slot.p4_byte x L probe).
+Proof. exact P4_Slot.p4_setHashProbe_eq. Qed.
+Print Assumptions C12_limp4_setHashProbe_stores_byte.
+
+(* Open2N2, reconstruct_exact: same statement for BucketOpen2N2<.,3,true> (quadratic probing: the element sits
+   tri(probe) buckets after its start bucket); additionally MOMO_ASSERT(probeShift > 0) can never fail when the table
+   really grows (L < newL). *)
+Theorem C12_open2n2_reconstruct_exact :
+  forall st sh hp full bidx L newL idx h probe,
+    0 <= h < 2 ^ 64 -> 0 <= L <= 57 -> L < newL <= 63 -> 0 <= probe ->
+    hp idx = O2_Slot.o2_byte h L probe -> sh idx = Gen_O2.pvCalcShortHash h ->
+    bidx = (h mod 2 ^ L + O2_Slot.tri probe) mod 2 ^ L ->
+    Gen_O2.GetHashCodePart st sh hp full bidx L newL idx =
+      Ok (if O2_Slot.o2_full_used (O2_Slot.o2_byte h L probe) L newL then full else Known.known (Known.qof L) h).
+Proof. exact O2_Slot.o2_reconstruct. Qed.
+Print Assumptions C12_open2n2_reconstruct_exact.
+
+(* o2_byte / pvCalcShortHash are exactly what the generated AddCrt writes into slot 2 - count *)
+Theorem C12_open2n2_addcrt_stores_byte :
+  forall st sh hp x L probe newItem, 0 <= L <= 63 -> 0 <= probe < 2 ^ 64 ->
+    Gen_O2.AddCrt st sh hp x L probe newItem =
+      let count := Gen_O2.pvGetCount st sh hp in
+      if count <? 3 then
+        Ok (tt, upd st 1 (wrapU 8 (st 1 + 1)), upd sh (wrapU 64 (2 - count)) (Gen_O2.pvCalcShortHash x),
+                upd hp (wrapU 64 (2 - count)) (O2_Slot.o2_byte x L probe))
+      else Stuck.
+Proof. exact O2_Slot.o2_addcrt_eq. Qed.
+Print Assumptions C12_open2n2_addcrt_stores_byte.
+
+(* placement_depends_on_known: everything the new placement reads (start bucket for a table of the same class,
+   short hash, new hash-probe byte) is a function of the known bits. *)
+Theorem C12_start_bucket_depends_on_known :
+  forall q h L, 0 <= q -> 0 <= L <= 63 -> L <= 8 * q + 1 ->
+    Gen_Base.GetStartBucketIndex (Known.known q h) (2 ^ L) = Gen_Base.GetStartBucketIndex h (2 ^ L).
+Proof. exact Known.start_known. Qed.
+Print Assumptions C12_start_bucket_depends_on_known.
+
+Theorem C12_limp4_short_hash_depends_on_known :
+  forall q x, 0 <= q -> Gen_P4.pvCalcShortHash (Known.known q x) = Gen_P4.pvCalcShortHash x.
+Proof. exact P4_Slot.p4_short_known. Qed.
+Print Assumptions C12_limp4_short_hash_depends_on_known.
+
+Theorem C12_limp4_hash_probe_depends_on_known :
+  forall q x L probe, Known.qof L = q -> 0 <= L <= 57 -> 0 <= probe ->
+    P4_Slot.p4_byte (Known.known q x) L probe = P4_Slot.p4_byte x L probe.
+Proof. exact P4_Slot.p4_byte_known. Qed.
+Print Assumptions C12_limp4_hash_probe_depends_on_known.
+
+Theorem C12_open2n2_short_hash_depends_on_known :
+  forall q x, 0 <= q -> Gen_O2.pvCalcShortHash (Known.known q x) = Gen_O2.pvCalcShortHash x.
+Proof. exact O2_Slot.o2_short_known. Qed.
+Print Assumptions C12_open2n2_short_hash_depends_on_known.
+
+(* Open2N2 packs 8 hash bits when the probe shift is 0 (L = 1 mod 8); those reach one bit beyond the known bits, so the
+   byte computed from a reconstructed code may differ there -- and is never used: see the chain theorem. *)
+Theorem C12_open2n2_hash_probe_depends_on_known :
+  forall q x L probe, Known.qof L = q -> (L + 7) mod 8 <> 0 -> 0 <= L <= 57 -> 0 <= probe ->
+    O2_Slot.o2_byte (Known.known q x) L probe = O2_Slot.o2_byte x L probe.
+Proof. exact O2_Slot.o2_byte_known. Qed.
+Print Assumptions C12_open2n2_hash_probe_depends_on_known.
+
+(* full_getter_when_insufficient: the full getter is used exactly when the byte is the empty marker (displacement too
+   large for the probe field, or the legitimate pack happens to be 255) or the class changes ... *)
+Theorem C12_limp4_full_getter_iff :
+  forall h L newL probe, 0 <= h -> 0 <= L <= 63 -> 0 <= probe ->
+    P4_Slot.p4_full_used (P4_Slot.p4_byte h L probe) L newL = true <->
+      (P4_Slot.p4_byte h L probe = 255 \/ Known.qof L <> Known.qof newL).
+Proof. exact Chain.p4_full_getter_iff. Qed.
+Print Assumptions C12_limp4_full_getter_iff.
+
+(* ... a slot that holds another element's short hash (< 128) is never mistaken for a hash-probe byte ... *)
+Theorem C12_limp4_short_hash_never_read_as_probe :
+  forall v L newL, 0 <= v < 128 -> P4_Slot.p4_full_used v L newL = true.
+Proof. exact P4_Slot.p4_full_used_short. Qed.
+Print Assumptions C12_limp4_short_hash_never_read_as_probe.
+
+Theorem C12_open2n2_full_getter_iff :
+  forall v L newL, O2_Slot.o2_full_used v L newL = true <-> (v = 255 \/ Known.qof L <> Known.qof newL).
+Proof. exact Chain.o2_full_getter_iff. Qed.
+Print Assumptions C12_open2n2_full_getter_iff.
+
+(* ... and across a class boundary recomputing is necessary: two hashes with identical known bits start in different
+   buckets of the larger table. *)
+Theorem C12_known_bits_insufficient_across_classes :
+  forall q newL, 0 <= q -> 8 * q + 1 < 57 -> 8 * q + 1 < newL <= 63 ->
+    exists h1 h2, 0 <= h1 < 2 ^ 64 /\ 0 <= h2 < 2 ^ 64 /\ Known.known q h1 = Known.known q h2 /\
+      Gen_Base.GetStartBucketIndex h1 (2 ^ newL) <> Gen_Base.GetStartBucketIndex h2 (2 ^ newL).
+Proof. exact Chain.known_insufficient_across_classes. Qed.
+Print Assumptions C12_known_bits_insufficient_across_classes.
+
+(* chain_placement_equiv, LimP4: start from an element placed from its true hash h; along ANY chain of strictly growing
+   table sizes (<= 2^57), any displacements, any slot situation (own hash-probe byte / empty marker / another element's
+   short hash), re-placing from GetHashCodePart's answer yields at every step exactly the state a full rehash yields:
+   same bucket, same short hash, same hash-probe byte. *)
+Theorem C12_limp4_chain_placement_equiv :
+  forall H idx h, 0 <= idx -> idx < H - 1 - idx -> H <= 8 -> 0 <= h < 2 ^ 64 ->
+  forall steps L probe junk, 0 <= L <= 57 -> 0 <= probe -> Chain.junk_ok junk -> Chain.steps_ok L steps ->
+    Chain.p4_chain_reuse H idx h (Chain.p4_mk h L probe junk) steps = Chain.p4_chain_rehash h (Chain.p4_mk h L probe junk) steps.
+Proof. exact Chain.p4_chain_placement_equiv. Qed.
+Print Assumptions C12_limp4_chain_placement_equiv.
+
+(* chain_placement_equiv, Open2N2: no assertion fails along any chain, and the element always gets the bucket, the
+   short hash and every live hash-probe byte of a full rehash (o2_eqv: the byte may differ only for tables with
+   L = 1 mod 8, where it can never be read back because every later growth leaves the class). *)
+Theorem C12_open2n2_chain_placement_equiv :
+  forall idx h, 0 <= h < 2 ^ 64 ->
+  forall steps e L probe, 0 <= L <= 57 -> 0 <= probe -> Chain.o2_eqv e (Chain.o2_mk h L probe) -> Chain.o2_steps_ok L steps ->
+    exists l, Chain.o2_chain_reuse idx h e steps = Ok l /\
+      Forall2 Chain.o2_eqv l (Chain.o2_chain_rehash h (Chain.o2_mk h L probe) steps).
+Proof. exact Chain.o2_chain_placement_equiv. Qed.
+Print Assumptions C12_open2n2_chain_placement_equiv.
+
+(* BucketOne (64-bit state): AddCrt then GetHashCodePart returns the low 63 bits of h without ever calling the full
+   getter; the state a later Find compares against and every start bucket up to 2^62 buckets read only those bits. *)
+Theorem C12_one_reconstruct :
+  forall h full iter, 0 <= h < 2 ^ 64 ->
+    exists st, Gen_One.AddCrt 0 h = Ok (tt, st) /\ Gen_One.IsFull st = true /\
+      Gen_One.GetHashCodePart st full iter iter = Ok (h mod 2 ^ 63) /\
+      Gen_One.pvGetHashState (h mod 2 ^ 63) = Gen_One.pvGetHashState h /\
+      (forall L, 0 <= L <= 62 -> Gen_Base.GetStartBucketIndex (h mod 2 ^ 63) (2 ^ L) = Gen_Base.GetStartBucketIndex h (2 ^ L)).
+Proof. exact Chain.one_reconstruct. Qed.
+Print Assumptions C12_one_reconstruct.
+
+(* bucket_meta_inv, LimP4: every metadata state reachable from the empty bucket by ANY sequence of AddCrt (metadata
+   composition p4_add of the generated pvGetCount/pvSetHashProbe/pvCalcShortHash) and the generated Remove, for every
+   hashCount in 4..8, satisfies the bucket invariant: slots [0,count) are the elements' short hashes (< 128), all other
+   slots are >= 128 (so pvGetCount is right), and each element's hash-probe slot, when it is not used as a short-hash
+   slot, holds the empty marker or the element's own byte (hash-probe bytes survive the compaction done by Remove). *)
+Theorem C12_limp4_bucket_meta_inv :
+  forall H mm L s c hs ps, 4 <= H <= 8 -> 0 <= L <= 63 -> P4_Bucket.p4_reach H mm L s c hs ps ->
+    P4_Bucket.p4_inv H s c (P4_Bucket.sh_of hs) (P4_Bucket.bv_of L hs ps) /\
+    (forall i, 0 <= i < c -> 0 <= hs i < 2 ^ 64 /\ 0 <= ps i < 2 ^ 64).
+Proof. exact P4_Bucket.p4_reach_inv. Qed.
+Print Assumptions C12_limp4_bucket_meta_inv.
+
+Theorem C12_limp4_count_from_metadata :
+  forall H s c sh bv, 4 <= H -> P4_Bucket.p4_inv H s c sh bv -> Gen_P4.pvGetCount s = c.
+Proof. exact P4_Bucket.p4_count_inv. Qed.
+Print Assumptions C12_limp4_count_from_metadata.
+
+(* reconstruct_exact at bucket level: after ANY such history, for EVERY element i of the bucket (hash hs i, displacement
+   ps i) GetHashCodePart returns the full getter's value or exactly the known bits of that element's own hash -- never
+   bits of a neighbour, never a stale byte left behind by a removal. *)
+Theorem C12_limp4_bucket_reconstruct_exact :
+  forall H mm L s c hs ps i full bidx newL items, 4 <= H <= 8 -> 0 <= L <= 57 -> 0 <= newL <= 63 ->
+    P4_Bucket.p4_reach H mm L s c hs ps -> 0 <= i < c -> bidx = (hs i mod 2 ^ L + ps i) mod 2 ^ L ->
+    Gen_P4.GetHashCodePart H s full bidx L newL items i = full \/
+    (Gen_P4.GetHashCodePart H s full bidx L newL items i = Known.known (Known.qof L) (hs i) /\ Known.qof L = Known.qof newL).
+Proof. exact P4_Bucket.p4_bucket_reconstruct. Qed.
+Print Assumptions C12_limp4_bucket_reconstruct_exact.
+
+(* non-vacuity: concrete 64-bit hashes for which the reconstruction path (not the full getter) is taken and the known
+   bits differ from the hash, so the theorems above are not about an empty set of situations. *)
+Theorem C12_limp4_nonvacuous :
+  exists h L newL probe, 0 <= h < 2 ^ 64 /\ 0 <= L <= 57 /\ L < newL <= 57 /\ 0 <= probe /\
+    P4_Slot.p4_full_used (P4_Slot.p4_byte h L probe) L newL = false /\ Known.known (Known.qof L) h <> h /\
+    Chain.p4_code 4 0 h (Chain.p4_mk h L probe None) newL = Known.known (Known.qof L) h.
+Proof. exact Chain.p4_nonvacuous. Qed.
+Print Assumptions C12_limp4_nonvacuous.
+
+Theorem C12_open2n2_nonvacuous :
+  exists h L newL probe, 0 <= h < 2 ^ 64 /\ 0 <= L <= 57 /\ L < newL <= 57 /\ 0 <= probe /\
+    O2_Slot.o2_full_used (O2_Slot.o2_byte h L probe) L newL = false /\ Known.known (Known.qof L) h <> h /\
+    Chain.o2_code 2 h (Chain.o2_mk h L probe) newL = Ok (Known.known (Known.qof L) h).
+Proof. exact Chain.o2_nonvacuous. Qed.
+Print Assumptions C12_open2n2_nonvacuous.
